@@ -1506,6 +1506,12 @@ class H2Connection:
         delta = new_value - old_value
 
         for stream in self.streams.values():
+            # Closed streams stay in this dict until they are next cleaned
+            # up. They have no flow control window any more: what is left of
+            # the old one must not turn a valid setting into an error.
+            if stream.closed:
+                continue
+
             stream.outbound_flow_control_window = guard_increment_window(
                 stream.outbound_flow_control_window,
                 delta
@@ -1523,6 +1529,10 @@ class H2Connection:
         frames = []
 
         for stream in self.streams.values():
+            # Closed streams that have not been cleaned up yet have no window.
+            if stream.closed:
+                continue
+
             stream._inbound_flow_control_change_from_settings(delta)
 
             # With the new window size, the bytes the user has acknowledged
